@@ -55,6 +55,9 @@ var transTargets = []transTarget{
 	{"node/kafkaproducer/kafkaproducer.go", "KafkaProducer", "Process", "", "kpProcess"},
 	// C04 / C01 (root delivery, F11)
 	{"executor/executor.go", "Executor", "Execute", "loop2", "exRootDeliverBody"},
+	// C17 / C03
+	{"executor/executor.go", "Executor", "Execute", "tail1", "exExecuteTail"},
+	{"executor/executor.go", "", "waitTimeout", "", "exWaitTimeout"},
 	// C18
 	{"executor/executor.go", "Executor", "prepareSource", "", "exPrepareSource"},
 	{"executor/executor.go", "Executor", "superviseSource", "loop0", "exSuperviseBody"},
@@ -102,7 +105,7 @@ func vr(s string) string  { return "(.var " + leanStr(s) + ")" }
 
 func pureConv(fn string) bool {
 	switch fn {
-	case "int64", "int", "kafka.Offset":
+	case "int64", "int", "kafka.Offset", "time.Duration":
 		return true
 	}
 	return false
@@ -257,6 +260,40 @@ func (t *translator) block(b *ast.BlockStmt) string {
 	return "(blk [" + strings.Join(out, ",\n    ") + "])"
 }
 
+// selectRecv: select { case <-a: A  case <-b: B } with receive cases only.  The channel expressions are evaluated on entry
+// (calls among them are events, in order); which case fires is the input "select#0" (0, 1, ...).
+func (t *translator) selectRecv(s ast.Stmt, x *ast.SelectStmt) []string {
+	if len(x.Body.List) == 0 {
+		return nil
+	}
+	var out, chans []string
+	for _, c := range x.Body.List {
+		cc := c.(*ast.CommClause)
+		es, ok := cc.Comm.(*ast.ExprStmt)
+		if !ok {
+			return nil
+		}
+		u, ok := es.X.(*ast.UnaryExpr)
+		if !ok || u.Op != token.ARROW {
+			return nil
+		}
+		var ch string
+		pre := t.withPre(s, func() string { ch = t.expr(u.X); return "" })
+		if len(pre) == 1 && strings.HasPrefix(pre[0], "(.unsupported") {
+			return pre
+		}
+		out = append(out, pre...)
+		chans = append(chans, ch)
+	}
+	out = append(out, fmt.Sprintf("(.call [(\"$sel\", \"select#0\")] \"select\" [%s])", strings.Join(chans, ", ")))
+	chain := "(.unsupported \"select: no such case\")"
+	for i := len(x.Body.List) - 1; i >= 0; i-- {
+		cc := x.Body.List[i].(*ast.CommClause)
+		chain = fmt.Sprintf("(.ite (.eq (.var \"$sel\") (.lit %d))\n    (blk [%s])\n    %s)", i, strings.Join(t.stmts(cc.Body), ",\n    "), chain)
+	}
+	return append(out, chain)
+}
+
 func (t *translator) stmts(l []ast.Stmt) []string {
 	var out []string
 	for _, s := range l {
@@ -286,6 +323,15 @@ func (t *translator) stmt(s ast.Stmt) []string {
 		return t.withPre(s, func() string { return t.callStmt(nil, c) })
 	case *ast.DeferStmt:
 		return []string{fmt.Sprintf("(.call [] %s [])", leanStr("defer "+exprString(x.Call.Fun)))}
+	case *ast.GoStmt:
+		// go f(args) / go func() {...}(): an event; what the goroutine does is not part of this run
+		return t.withPre(s, func() string {
+			var args []string
+			for _, a := range x.Call.Args {
+				args = append(args, t.loose(a))
+			}
+			return fmt.Sprintf("(.call [] %s [%s])", leanStr("go "+exprString(x.Call.Fun)), strings.Join(args, ", "))
+		})
 	case *ast.SendStmt:
 		return t.withPre(s, func() string {
 			var args []string
@@ -462,10 +508,20 @@ func (t *translator) stmt(s ast.Stmt) []string {
 				return []string{fmt.Sprintf("(.ite %s\n    (blk [%s])\n    (blk [%s]))", vr("room "+exprString(snd.Chan)), strings.Join(th, ",\n    "), strings.Join(el, ",\n    "))}
 			}
 		}
+		if out := t.selectRecv(s, x); out != nil {
+			return out
+		}
 	case *ast.RangeStmt:
 		// for _, v := range coll { f(args) }: one event "foreach coll: f" (the pattern of fan-out loops)
-		if len(x.Body.List) == 1 && !hasCall(x.X) {
-			if es, ok := x.Body.List[0].(*ast.ExprStmt); ok {
+		var bodyStmts []ast.Stmt
+		for _, bs := range x.Body.List {
+			if es, ok := bs.(*ast.ExprStmt); ok && isLogStmt(es.X) {
+				continue
+			}
+			bodyStmts = append(bodyStmts, bs)
+		}
+		if len(bodyStmts) == 1 && !hasCall(x.X) {
+			if es, ok := bodyStmts[0].(*ast.ExprStmt); ok {
 				if c, ok := es.X.(*ast.CallExpr); ok && !isLogStmt(c) {
 					return t.withPre(s, func() string {
 						var args []string
@@ -556,20 +612,22 @@ func writeTrans(repo string) string {
 			fmt.Sscanf(tt.part, "loop%d", &n)
 			body = nthLoop(body, n)
 		}
-		if body != nil && (tt.part == "head0" || tt.part == "tail0") {
-			// the top-level statements before / after the first top-level loop of the function
-			idx := -1
+		if body != nil && (strings.HasPrefix(tt.part, "head") || strings.HasPrefix(tt.part, "tail")) {
+			// the top-level statements before / after the k-th top-level loop of the function
+			k, idx, seen := 0, -1, 0
+			fmt.Sscanf(tt.part[4:], "%d", &k)
 			for i, st := range body.List {
 				switch st.(type) {
 				case *ast.RangeStmt, *ast.ForStmt:
-					if idx < 0 {
+					if seen == k && idx < 0 {
 						idx = i
 					}
+					seen++
 				}
 			}
 			if idx < 0 {
 				body = nil
-			} else if tt.part == "head0" {
+			} else if strings.HasPrefix(tt.part, "head") {
 				body = &ast.BlockStmt{List: body.List[:idx]}
 			} else {
 				body = &ast.BlockStmt{List: body.List[idx+1:]}
